@@ -1,7 +1,7 @@
 SPECIFICATION Spec
 CONSTANTS
-  MaxIn = 3
-  MaxOut = 3
+  MaxIn = 2
+  MaxOut = 2
   MaxKern = 2
   Vals = {0, 1, 2, 3}
   NBlind = 3
@@ -11,4 +11,4 @@ CONSTANTS
   Splits <- SplitsSmall
   PrevOffsets = {0, 1}
   MaxCorrupt = 1
-INVARIANTS AllChecks
+INVARIANTS TablesAgree ValidImpliesNoValueCreated BasesAreValid SingleCorruptionRefused RefusedConservingIsStructural
